@@ -73,6 +73,7 @@ func init() {
 		"fmt.Errorf":  fmtErrorf,
 		"fmt.Sprint":  fmtSprint,
 		"errors.New":  errorsNew,
+		"errors.Is":   errorsIs,
 
 		"strconv.ParseInt":   scParseInt,
 		"strconv.ParseFloat": scParseFloat,
@@ -434,6 +435,56 @@ func (p *Path) mkError(msg Str) Value {
 	return Iface{T: e.errPtrType, V: cell}
 }
 
+// strconvErr builds the *strconv.NumError that ParseInt / ParseFloat return,
+// wrapping the package's ErrRange or ErrSyntax sentinel (so that code under
+// test can tell them apart with == or errors.Is).
+func (p *Path) strconvErr(fn, num string, rng bool) Value {
+	e := p.w.eng
+	pkg := e.prog.ImportedPackage("strconv")
+	if pkg == nil || pkg.Type("NumError") == nil {
+		return p.mkError(strConst(p.st(), "strconv: "+fn+": parsing "+strconv.Quote(num)))
+	}
+	name := "ErrSyntax"
+	if rng {
+		name = "ErrRange"
+	}
+	sentinel := *p.global(pkg.Var(name))
+	cell := new(Value)
+	*cell = Struct{strConst(p.st(), fn), strConst(p.st(), num), sentinel}
+	return Iface{T: types.NewPointer(pkg.Type("NumError").Type()), V: cell}
+}
+
+// errorsIs models errors.Is for the error values the executor creates:
+// identity, and unwrapping of *strconv.NumError.
+func errorsIs(p *Path, _ *frame, _ *ssa.Function, args []Value) Value {
+	st := p.st()
+	err, _ := args[0].(Iface)
+	target, _ := args[1].(Iface)
+	for i := 0; i < 8; i++ {
+		if err.T == nil {
+			return st.Bool(target.T == nil)
+		}
+		if eq := st.eqTerm(err, target); eq.op == OpConst && eq.c != 0 {
+			return st.True
+		}
+		pt, ok := err.T.(*types.Pointer)
+		if !ok {
+			return st.False
+		}
+		nt, ok := pt.Elem().(*types.Named)
+		if !ok || nt.Obj().Name() != "NumError" || nt.Obj().Pkg() == nil || nt.Obj().Pkg().Path() != "strconv" {
+			return st.False
+		}
+		cell := err.V.(*Value)
+		if cell == nil {
+			return st.False
+		}
+		inner, _ := (*cell).(Struct)[2].(Iface)
+		err = inner
+	}
+	return st.False
+}
+
 func errorsNew(p *Path, _ *frame, _ *ssa.Function, args []Value) Value {
 	return p.mkError(args[0].(Str))
 }
@@ -590,7 +641,8 @@ func scParseInt(p *Path, caller *frame, fn *ssa.Function, args []Value) Value {
 	if ok && ok2 && ok3 {
 		v, err := strconv.ParseInt(s, base, bits)
 		if err != nil {
-			return Tuple{st.Const(64, uint64(v)), p.mkError(strConst(st, err.Error()))}
+			ne, _ := err.(*strconv.NumError)
+			return Tuple{st.Const(64, uint64(v)), p.strconvErr("ParseInt", s, ne != nil && ne.Err == strconv.ErrRange)}
 		}
 		return Tuple{st.Const(64, uint64(v)), Iface{}}
 	}
@@ -603,7 +655,7 @@ func scParseInt(p *Path, caller *frame, fn *ssa.Function, args []Value) Value {
 	if p.branch(okT) {
 		return Tuple{p.newVar(64, "parseint.value"), Iface{}}
 	}
-	return Tuple{st.Const(64, 0), p.mkError(strConst(st, "strconv.ParseInt: invalid"))}
+	return Tuple{st.Const(64, 0), p.strconvErr("ParseInt", "<symbolic>", false)}
 }
 
 func scParseFloat(p *Path, caller *frame, fn *ssa.Function, args []Value) Value {
@@ -613,7 +665,8 @@ func scParseFloat(p *Path, caller *frame, fn *ssa.Function, args []Value) Value 
 		_, err := strconv.ParseFloat(s, 64)
 		// floats are not modelled: only the error result is meaningful
 		if err != nil {
-			return Tuple{st.Const(64, 0), p.mkError(strConst(st, err.Error()))}
+			ne, _ := err.(*strconv.NumError)
+			return Tuple{st.Const(64, 0), p.strconvErr("ParseFloat", s, ne != nil && ne.Err == strconv.ErrRange)}
 		}
 		return Tuple{st.Const(64, 0), Iface{}}
 	}
@@ -626,7 +679,7 @@ func scParseFloat(p *Path, caller *frame, fn *ssa.Function, args []Value) Value 
 	if p.branch(okT) {
 		return Tuple{st.Const(64, 0), Iface{}}
 	}
-	return Tuple{st.Const(64, 0), p.mkError(strConst(st, "strconv.ParseFloat: invalid"))}
+	return Tuple{st.Const(64, 0), p.strconvErr("ParseFloat", "<symbolic>", false)}
 }
 
 func scItoa(p *Path, _ *frame, _ *ssa.Function, args []Value) Value {
